@@ -190,6 +190,29 @@ PROPS = {
         assumptions=[],
         trusted_base=[],
     ),
+    'C12': dict(
+        level='proof',
+        text='the three generators are proved against fold specifications for tracks of ANY length (loop invariants with a '
+             'ghost output sequence): _to_abstime puts every message at its prefix sum, _to_reltime at the difference to its '
+             'predecessor, fix_end_of_track yields FO (non-end_of_track messages with the deltas of removed end_of_track messages '
+             'carried over) followed by one end_of_track holding the trailing delta FA; merge_tracks is proved to be exactly '
+             'fix . reltime . sort-by-time . concat(abstime(track_t)) in track order, for 0..3 tracks of any length, writing to '
+             'no input object. Lemmas (induction) give the user-level clauses: no end_of_track before the last element, every '
+             'yielded message keeps its absolute tick, total duration preserved, deltas of the sorted list telescope.',
+        note='trusted: pyvc, z3/cvc5; ASSUMED: list.sort(key=) is a stable sort (permutation + sorted, given as a bijection '
+             'contract); messages in a track are valid so that msg.copy(time=t) only changes the time (contract proved under '
+             'C03/C15); number of tracks enumerated 0..3 (each of unknown length); the final assembly of the lemmas into the '
+             'sentence of the property statement is by hand (DESIGN.md)',
+        clauses=[
+            ['_to_abstime / _to_reltime / fix_end_of_track against their fold specifications, any track length', 'P'],
+            ['merge_tracks == fix . reltime . stable-sort . concat(abstime), inputs not written, skip_checks passed on', 'P (sort contract assumed)'],
+            ['lemmas: no inner end_of_track, absolute ticks kept, total duration kept, telescoping, monotone abstime', 'P'],
+            ['ties kept in track order then in-track order', 'PA (stability of list.sort)'],
+            ['more than 3 tracks', 'not covered (the loop over tracks is unrolled for 0..3 tracks)'],
+        ],
+        assumptions=['list.sort is a stable sort', 'tracks hold valid messages with non-negative integer delta times'],
+        trusted_base=[],
+    ),
     'C02': dict(
         level='proof',
         text='Message.from_bytes / decode_message are verified against the MIDI 1.0 well-formedness predicate for integer '
@@ -210,5 +233,5 @@ PROPS = {
 }
 
 NOT_APPLICABLE = {pid: _PENDING for pid in
-                  ['C07', 'C08', 'C10', 'C11', 'C12', 'C13',
+                  ['C07', 'C08', 'C10', 'C11', 'C13',
                    'C16', 'C18', 'C19', 'C20']}
